@@ -37,7 +37,7 @@ func EngineFindings(h *History) []Finding {
 			out = append(out, Finding{Sig: "panic", Msg: rec.Panic, Cycle: rec.Index})
 		}
 		if rec.Hung {
-			out = append(out, Finding{Sig: "hang", Msg: "scheduling cycle did not finish within the watchdog", Cycle: rec.Index})
+			out = append(out, Finding{Sig: "hang", Msg: "scheduling cycle did not finish - " + rec.HangKind, Cycle: rec.Index})
 		}
 	}
 	return out
@@ -105,7 +105,7 @@ func JudgeNodes(shared bool) Judge {
 		var tot NodeFacts
 		resvSlot := 0
 		for _, rec := range h.Cycles {
-			if rec.Panic != "" || rec.Hung {
+			if rec.Panic != "" || rec.Hung || rec.Starved {
 				continue
 			}
 			fs, facts := CheckNodes(rec, shared)
